@@ -1,0 +1,165 @@
+//! Verification hooks. Compiled only with `--cfg brc20_prog_verif`; the shipped crate does not
+//! contain this module. Everything here is additive instrumentation used by the model-checking
+//! harness that lives outside this repository.
+#![allow(missing_docs)]
+
+use std::cell::{Cell, RefCell};
+
+pub use crate::api::types::{decode_bytes_from_inscription_data, select_bytes};
+pub use crate::api::INDEXER_METHODS;
+pub use crate::db::types::{Decode, Encode};
+pub use crate::db::verif_db::*;
+pub use crate::db::Brc20ProgDatabase;
+pub use crate::engine::{get_evm_address_from_pkscript, BRC20ProgEngine, TxInfo};
+pub use crate::global::database::{validate_config_database, ConfigDatabase};
+pub use crate::global::{
+    SharedData, CALLDATA_LIMIT, CONFIG, GAS_PER_BYTE, MAX_FUTURE_TRANSACTION_BLOCKS,
+    MAX_FUTURE_TRANSACTION_NONCES, MAX_REORG_HISTORY_SIZE,
+};
+pub use crate::server::verif_rpc_module;
+
+/// All persisted / served types, for the codec grids.
+pub mod types {
+    pub use crate::db::types::*;
+}
+
+/// Direct access to the custom precompile functions.
+pub mod precompiles {
+    pub use crate::engine::verif_precompiles::*;
+}
+
+// ---------------------------------------------------------------------------------------------
+// H1: state dump
+// ---------------------------------------------------------------------------------------------
+
+/// One row of a versioned table's in-memory cache.
+#[derive(Clone, Debug, PartialEq, Eq, Hash)]
+pub struct VerifCacheRow {
+    pub key: Vec<u8>,
+    /// encoded history (`BlockHistoryCacheData`)
+    pub history: Vec<u8>,
+    /// encoded latest value, None = deleted
+    pub latest: Option<Vec<u8>>,
+}
+
+#[derive(Clone, Debug, Default, PartialEq, Eq, Hash)]
+pub struct VerifTableDump {
+    pub name: &'static str,
+    /// rows of the latest-value RocksDB, in RocksDB iteration order
+    pub db: Vec<(Vec<u8>, Vec<u8>)>,
+    /// rows of the history RocksDB (empty for block-keyed tables)
+    pub cache_db: Vec<(Vec<u8>, Vec<u8>)>,
+    /// in-memory cache rows sorted by encoded key
+    pub cache: Vec<VerifCacheRow>,
+}
+
+#[derive(Clone, Debug, Default, PartialEq, Eq, Hash)]
+pub struct VerifDump {
+    pub tables: Vec<VerifTableDump>,
+    pub latest_block_number: Option<(u64, [u8; 32])>,
+    /// (waiting_tx_count, timestamp, hash, gas_used, log_index)
+    pub last_block_info: (u64, u64, [u8; 32], u64, u64),
+}
+
+// ---------------------------------------------------------------------------------------------
+// H2: failpoints in front of every persistent write
+// ---------------------------------------------------------------------------------------------
+
+thread_local! {
+    static FP_COUNT: Cell<u64> = const { Cell::new(0) };
+    static FP_ARM: Cell<u64> = const { Cell::new(u64::MAX) };
+    static FP_LOG: RefCell<Option<Vec<&'static str>>> = const { RefCell::new(None) };
+}
+
+/// Payload of the panic raised by an armed failpoint.
+pub struct VerifCrash(pub u64, pub &'static str);
+
+/// Called in front of every RocksDB put / delete / flush of the commit, reorg and finalise paths.
+pub fn fp(site: &'static str) {
+    let n = FP_COUNT.with(|c| {
+        let v = c.get();
+        c.set(v + 1);
+        v
+    });
+    FP_LOG.with(|l| {
+        if let Some(l) = l.borrow_mut().as_mut() {
+            l.push(site);
+        }
+    });
+    if FP_ARM.with(|a| a.get()) == n {
+        FP_ARM.with(|a| a.set(u64::MAX));
+        std::panic::panic_any(VerifCrash(n, site));
+    }
+}
+
+/// Reset the counter; `arm` = index of the write in front of which to crash (u64::MAX: never);
+/// `log` = record the site names.
+pub fn fp_reset(arm: u64, log: bool) {
+    FP_COUNT.with(|c| c.set(0));
+    FP_ARM.with(|a| a.set(arm));
+    FP_LOG.with(|l| *l.borrow_mut() = if log { Some(Vec::new()) } else { None });
+}
+
+pub fn fp_count() -> u64 {
+    FP_COUNT.with(|c| c.get())
+}
+
+pub fn fp_log() -> Vec<&'static str> {
+    FP_LOG.with(|l| l.borrow().clone().unwrap_or_default())
+}
+
+// ---------------------------------------------------------------------------------------------
+// H3: lock events of SharedData
+// ---------------------------------------------------------------------------------------------
+
+/// kind: 'r' read requested, 'R' read granted, 'u' read released,
+///       'w' write requested, 'W' write granted, 'U' write released
+#[derive(Clone, Copy, Debug, PartialEq, Eq, Hash)]
+pub struct LockEvent {
+    pub lock: usize,
+    pub kind: char,
+    pub file: &'static str,
+    pub line: u32,
+}
+
+/// A scheduler installed by the harness: called *before* a thread blocks on an acquire
+/// (kinds 'r' / 'w') and after every release; it may park the calling thread.
+pub trait VerifScheduler: Send + Sync {
+    fn event(&self, ev: LockEvent);
+}
+
+thread_local! {
+    static LOCK_LOG: RefCell<Option<Vec<LockEvent>>> = const { RefCell::new(None) };
+}
+static SCHED: std::sync::RwLock<Option<std::sync::Arc<dyn VerifScheduler>>> =
+    std::sync::RwLock::new(None);
+
+pub fn lock_log_start() {
+    LOCK_LOG.with(|l| *l.borrow_mut() = Some(Vec::new()));
+}
+
+pub fn lock_log_take() -> Vec<LockEvent> {
+    LOCK_LOG.with(|l| l.borrow_mut().take().unwrap_or_default())
+}
+
+pub fn set_scheduler(s: Option<std::sync::Arc<dyn VerifScheduler>>) {
+    *SCHED.write().unwrap_or_else(|e| e.into_inner()) = s;
+}
+
+pub(crate) fn lock_event(lock: usize, kind: char, loc: &'static std::panic::Location<'static>) {
+    let ev = LockEvent {
+        lock,
+        kind,
+        file: loc.file(),
+        line: loc.line(),
+    };
+    LOCK_LOG.with(|l| {
+        if let Some(l) = l.borrow_mut().as_mut() {
+            l.push(ev);
+        }
+    });
+    let s = SCHED.read().unwrap_or_else(|e| e.into_inner()).clone();
+    if let Some(s) = s {
+        s.event(ev);
+    }
+}
